@@ -19,6 +19,7 @@ pub broadcast axiom fn ax_zero_f64() ensures (#[trigger] zero_f64())@ == XR::Fin
 pub open spec fn ofun(i: v1::Instance) -> v1::Function { match i.objective { Some(f) => f, None => zero_fn() } }
 pub open spec fn cfun(c: v1::Constraint) -> v1::Function { match c.function { Some(f) => f, None => zero_fn() } }
 ''')
+    asm.file('spec/fn_algebra_rem.rs')
     asm.file('spec/fn_algebra.rs')
     asm.file('spec/c12_spec.rs')
     asm.file('spec/penalty_spec.rs')
